@@ -17,6 +17,11 @@ open Iora.Gen.TlsCalls
 
 /-! ## configuration and environment -/
 
+/-- `TlsConfig.ciphers`, by what it does to authentication: unset (the library default: no anonymous suites); a string that
+leaves `aNULL`/`eNULL` disabled; a string that enables anonymous (unauthenticated) key exchange, e.g. `ALL:@SECLEVEL=0` -/
+inductive CipherClass | default | restricts | enablesAnon
+  deriving DecidableEq, Repr
+
 /-- `TransportConfig::TlsConfig`, abstracted to what `initTls` looks at -/
 structure Cfg where
   enabled : Bool := false
@@ -27,7 +32,7 @@ structure Cfg where
   caPathSet : Bool := false
   verifyPeer : Bool := false
   minVersion : Int := 0
-  ciphersSet : Bool := false
+  ciphers : CipherClass := .default
   alpnSet : Bool := false
   verifyDepthPositive : Bool := true
   deriving DecidableEq, Repr
@@ -82,7 +87,7 @@ def Env.atom (e : Env) : Atom → Bool
   | .verifyPeer => e.cfg.verifyPeer
   | .hostIsIPv4 => e.target == .ipv4
   | .hostIsIPv6 => e.target == .ipv6
-  | .ciphersSet => e.cfg.ciphersSet
+  | .ciphersSet => e.cfg.ciphers != .default
   | .alpnSet => e.cfg.alpnSet
   | .verifyDepthPositive => e.cfg.verifyDepthPositive
 
@@ -141,6 +146,7 @@ structure Ctx where
   trust : Trust := .none
   certLoaded : Bool := false
   keyLoaded : Bool := false
+  anon : Bool := false            -- the cipher list offers / accepts anonymous key exchange
   deriving DecidableEq, Repr
 
 /-- mirrors one action of `initTls`; `none` = `return false` -/
@@ -159,6 +165,7 @@ def stepCtx (e : Env) (f : Files) (c : Ctx) (s : Step) : Option Ctx :=
     | .defaultVerifyPaths => some { c with trust := .default }
     | .fail => none
     | .applyFloor => some { c with minProto := applyFloorMin c.minProto e.cfg.minVersion }
+    | .setCipherList => some { c with anon := e.cfg.ciphers == .enablesAnon }
     | .other _ => some c
   else some c
 
@@ -393,7 +400,8 @@ def chains (c : CertProps) : Anchors → Bool
   | .wrong => c.issuer == .wrongCA
   | .empty => false
 
-inductive PeerKind | tls | plaintext | garbage
+/-- `anon` = a TLS peer that offers ONLY anonymous key exchange (no certificate; such suites exist up to TLS 1.2) -/
+inductive PeerKind | tls | plaintext | garbage | anon
   deriving DecidableEq, Repr
 
 /-- a remote server: what it speaks, the certificate it shows, the highest protocol version it accepts (wire number) -/
@@ -416,6 +424,9 @@ def negotiated (peerCeil : Int) : Int := if peerCeil < tls13 then peerCeil else 
 /-- the context minimum (`SSL_CTX_set_min_proto_version`); unset = the library's lowest TLS version -/
 def Ctx.lowest (c : Ctx) : Int := c.minProto.getD tls10
 
+/-- anonymous suites exist up to TLS 1.2 only -/
+def anonNegotiated (peerCeil : Int) : Int := if peerCeil < 771 then peerCeil else 771
+
 def nameOk (host : Option String) (c : CertProps) : Bool :=
   match host with
   | none => true
@@ -427,32 +438,50 @@ structure Handshake where
   client : Ctx → Option String → Anchors → SrvPeer → Option Int
   server : Ctx → Anchors → CliPeer → Option Int
 
-/-- The assumed (documented) OpenSSL semantics, as hypotheses about the parameter. -/
+/-- what an anonymous-suite handshake does (no certificate is ever shown, so nothing is verified): it completes iff our own
+cipher list enables anonymous key exchange and the version bounds allow it; on a server that REQUIRES a client certificate
+(`FAIL_IF_NO_PEER_CERT`) it cannot complete, since the certificate request is illegal in an anonymous handshake -/
+def anonClient (c : Ctx) (p : SrvPeer) : Option Int :=
+  if c.anon && decide (c.lowest ≤ anonNegotiated p.ceil) then some (anonNegotiated p.ceil) else none
+
+def anonServer (c : Ctx) (p : CliPeer) : Option Int :=
+  if c.anon && decide (c.lowest ≤ anonNegotiated p.ceil) &&
+     (!c.verify.contains .peer || !c.verify.contains .failIfNoPeerCert) then some (anonNegotiated p.ceil) else none
+
+/-- The assumed (documented) OpenSSL semantics, as hypotheses about the parameter.  The certificate rules speak about peers that
+authenticate (`kind = tls`); `client_anon` / `server_anon` state what happens with anonymous suites — in particular that a cipher
+string enabling them makes `SSL_VERIFY_PEER` void on a client, which is why the authentication theorems carry the hypothesis
+`ciphers ≠ enablesAnon`. -/
 structure Handshake.Assumed (H : Handshake) : Prop where
   /-- a peer that does not speak TLS (plaintext / garbage) never completes a handshake -/
-  client_tls_only : ∀ c h a p v, H.client c h a p = some v → p.kind = .tls
+  client_nontls : ∀ c h a p, p.kind ≠ .tls → p.kind ≠ .anon → H.client c h a p = none
+  /-- anonymous key exchange: exactly `anonClient` (no certificate, no verification, whatever the verify flags) -/
+  client_anon : ∀ c h a p, p.kind = .anon → H.client c h a p = anonClient c p
   /-- the negotiated version is the lower ceiling and never below the context minimum -/
-  client_version : ∀ c h a p v, H.client c h a p = some v → v = negotiated p.ceil ∧ c.lowest ≤ v
+  client_version : ∀ c h a p v, p.kind = .tls → H.client c h a p = some v → v = negotiated p.ceil ∧ c.lowest ≤ v
   /-- the key exchange is signed: a peer that does not own its certificate's key fails, verification on or off -/
-  client_possession : ∀ c h a p v, H.client c h a p = some v → p.cert.possession = true
+  client_possession : ∀ c h a p v, p.kind = .tls → H.client c h a p = some v → p.cert.possession = true
   /-- client + `SSL_VERIFY_PEER`: fails unless the chain verifies to the configured store and is inside its validity period -/
-  client_verify : ∀ c h a p v, H.client c h a p = some v → c.verify.contains .peer = true →
+  client_verify : ∀ c h a p v, p.kind = .tls → H.client c h a p = some v → c.verify.contains .peer = true →
     chains p.cert a = true ∧ p.cert.inTime = true
   /-- the name is checked when (and ONLY when, see `client_complete`) `SSL_set1_host` was called -/
-  client_name : ∀ c n a p v, H.client c (some n) a p = some v → c.verify.contains .peer = true → p.cert.names.contains n = true
+  client_name : ∀ c n a p v, p.kind = .tls → H.client c (some n) a p = some v → c.verify.contains .peer = true →
+    p.cert.names.contains n = true
   /-- nothing else makes a client handshake fail -/
   client_complete : ∀ c h a p, p.kind = .tls → c.lowest ≤ negotiated p.ceil → p.cert.possession = true →
     (c.verify.contains .peer = true → chains p.cert a = true ∧ p.cert.inTime = true ∧ nameOk h p.cert = true) →
     H.client c h a p = some (negotiated p.ceil)
-  server_tls_only : ∀ c a p v, H.server c a p = some v → p.kind = .tls
-  server_version : ∀ c a p v, H.server c a p = some v → v = negotiated p.ceil ∧ c.lowest ≤ v
-  /-- a server context without certificate and key cannot complete any handshake -/
-  server_needs_cert : ∀ c a p v, H.server c a p = some v → (c.certLoaded && c.keyLoaded) = true
+  server_nontls : ∀ c a p, p.kind ≠ .tls → p.kind ≠ .anon → H.server c a p = none
+  server_anon : ∀ c a p, p.kind = .anon → H.server c a p = anonServer c p
+  server_version : ∀ c a p v, p.kind = .tls → H.server c a p = some v → v = negotiated p.ceil ∧ c.lowest ≤ v
+  /-- a server context without certificate and key cannot complete an authenticated handshake -/
+  server_needs_cert : ∀ c a p v, p.kind = .tls → H.server c a p = some v → (c.certLoaded && c.keyLoaded) = true
   /-- server + `SSL_VERIFY_PEER`: a presented client certificate must verify (chain, validity, possession) -/
-  server_verify : ∀ c a p v cc, H.server c a p = some v → c.verify.contains .peer = true → p.cert = some cc →
+  server_verify : ∀ c a p v cc, p.kind = .tls → H.server c a p = some v → c.verify.contains .peer = true → p.cert = some cc →
     chains cc a = true ∧ cc.inTime = true ∧ cc.possession = true
-  /-- … and a client WITHOUT certificate is rejected only under `SSL_VERIFY_FAIL_IF_NO_PEER_CERT` -/
-  server_nocert : ∀ c a p v, H.server c a p = some v → c.verify.contains .peer = true → p.cert = none →
+  /-- … and a client WITHOUT certificate is rejected only under `SSL_VERIFY_FAIL_IF_NO_PEER_CERT` (used by T5 and by the
+  exactness direction of T6; the F19 repair is what makes the flag present) -/
+  server_nocert : ∀ c a p v, p.kind = .tls → H.server c a p = some v → c.verify.contains .peer = true → p.cert = none →
     c.verify.contains .failIfNoPeerCert = false
   server_complete : ∀ c a p, p.kind = .tls → c.lowest ≤ negotiated p.ceil → (c.certLoaded && c.keyLoaded) = true →
     (c.verify.contains .peer = true →
@@ -463,19 +492,31 @@ structure Handshake.Assumed (H : Handshake) : Prop where
 
 namespace Ossl
 /-- executable reference of the assumed semantics (used by the driver; `ref_assumed` shows it satisfies them) -/
-def client (c : Ctx) (h : Option String) (a : Anchors) (p : SrvPeer) : Option Int :=
-  if p.kind == .tls && decide (c.lowest ≤ negotiated p.ceil) && p.cert.possession &&
+def clientTls (c : Ctx) (h : Option String) (a : Anchors) (p : SrvPeer) : Option Int :=
+  if decide (c.lowest ≤ negotiated p.ceil) && p.cert.possession &&
      (!c.verify.contains .peer || (chains p.cert a && p.cert.inTime && nameOk h p.cert))
   then some (negotiated p.ceil) else none
+
+def client (c : Ctx) (h : Option String) (a : Anchors) (p : SrvPeer) : Option Int :=
+  match p.kind with
+  | .tls => clientTls c h a p
+  | .anon => anonClient c p
+  | _ => none
 
 def clientCertOk (c : Ctx) (a : Anchors) : Option CertProps → Bool
   | none => !c.verify.contains .failIfNoPeerCert
   | some cc => chains cc a && cc.inTime && cc.possession
 
-def server (c : Ctx) (a : Anchors) (p : CliPeer) : Option Int :=
-  if p.kind == .tls && decide (c.lowest ≤ negotiated p.ceil) && (c.certLoaded && c.keyLoaded) &&
+def serverTls (c : Ctx) (a : Anchors) (p : CliPeer) : Option Int :=
+  if decide (c.lowest ≤ negotiated p.ceil) && (c.certLoaded && c.keyLoaded) &&
      (!c.verify.contains .peer || clientCertOk c a p.cert)
   then some (negotiated p.ceil) else none
+
+def server (c : Ctx) (a : Anchors) (p : CliPeer) : Option Int :=
+  match p.kind with
+  | .tls => serverTls c a p
+  | .anon => anonServer c p
+  | _ => none
 
 def ref : Handshake := { client := client, server := server }
 end Ossl
@@ -646,12 +687,16 @@ def httpAdmissible (c : HttpCell) : Bool :=
 
 end Spec
 
-/-! ## a TLS session stays silent until the handshake is done (`driveHandshake`, `onSession`, `doSend`) -/
+/-! ## a TLS session stays silent until the handshake is done (`doConnect` tail, `onSession`, `driveHandshake`, `writePending`, `doSend`)
+
+Every guard of the C++ is an input from `Gen` (`true` = present); the machine does what the C++ would do WITHOUT a guard
+when its fact is `false`, so each fact is load-bearing for T7/T8. -/
 
 inductive TlsState | none | handshake | open
   deriving DecidableEq, Repr
 
 structure Sess where
+  req : Mode := .none               -- `cr.tls` of the connect request (outbound sessions)
   tlsMode : Mode := .none
   tlsState : TlsState := .none
   connectPending : Bool := true
@@ -662,9 +707,10 @@ structure Sess where
 
 /-- what the I/O thread can be asked to do with one session -/
 inductive SEv
-  | writable                      -- EPOLLOUT with SO_ERROR = 0 (TCP connect complete)
-  | handshake (rc : Option Bool)  -- `SSL_do_handshake`: some true = 1, none = WANT_READ/WRITE, some false = fatal
-  | appSend (bs : List UInt8)     -- `send(sid, bs)` command
+  | immediate                                -- tail of `doConnect`: the socket turned out to be connected already
+  | epoll (out : Bool) (rc : Option Bool)    -- one `onSession` call (EPOLLOUT set? else EPOLLIN); `rc` = what `SSL_do_handshake`
+                                             --   answers IF it is driven: some true = 1, none = WANT_READ/WRITE, some false = fatal
+  | appSend (bs : List UInt8)                -- `send(sid, bs)` command → `doSend`
   deriving DecidableEq, Repr
 
 inductive SOut
@@ -674,45 +720,89 @@ inductive SOut
   | onClose
   deriving DecidableEq, Repr
 
-/-- the outputs that flush the write queue once the session may write -/
-def flush (tls : Bool) (q : List (List UInt8)) : List SOut :=
-  q.map (fun b => if tls then .sslWrite b else .rawWire b)
+def Sess.inHs (s : Sess) : Bool := s.tlsMode != .none && s.tlsState == .handshake
+def Sess.openTls (s : Sess) : Bool := s.tlsMode != .none && s.tlsState == .open
 
-/-- mirrors `onSession` (connect announce + handshake drive), `driveHandshake`, `doSend`; the guards come from `Gen` -/
+def announce (s : Sess) : Sess × List SOut :=
+  ({ s with connectPending := false, announced := true }, [.onConnect])
+
+/-- mirrors `writePending`: drains the queue — `SSL_write` for an Open TLS session, otherwise a raw `::send` -/
+def writePending (s : Sess) : Sess × List SOut :=
+  if s.wq.isEmpty then (s, [])
+  else if s.openTls && writePendingSslWhenOpenTls then ({ s with wq := [] }, s.wq.map .sslWrite)
+  else if s.inHs && writePendingSkipsHandshake then (s, [])
+  else ({ s with wq := [] }, s.wq.map .rawWire)
+
+/-- what a NON-successful `SSL_do_handshake` does to the session when Open / the connect callback are not confined to `rc == 1` -/
+def leakOnIncomplete (s : Sess) : Sess × List SOut :=
+  let s1 := if openOnlyOnRc1 then s else { s with tlsState := .open }
+  if connectCbOnlyOnRc1 then (s1, []) else ({ s1 with announced := true }, [.onConnect])
+
+/-- mirrors `driveHandshake`: (session, outputs, completed) -/
+def driveHs (s : Sess) (rc : Option Bool) : Sess × List SOut × Bool :=
+  match rc with
+  | some true => ({ s with tlsState := .open, connectPending := false, announced := true }, [.onConnect], true)
+  | none =>
+    if wantIoKeepsHandshake then ((leakOnIncomplete s).1, (leakOnIncomplete s).2, false)
+    else ({ s with closed := true, wq := [] }, [.onClose], false)
+  | some false =>
+    if failureCloses then ({ s with closed := true, wq := [] }, [.onClose], false)
+    else ((leakOnIncomplete s).1, (leakOnIncomplete s).2, false)
+
+/-- mirrors the tail of `doConnect`, `onSession`, `doSend` -/
 def sessStep (s : Sess) (ev : SEv) : Sess × List SOut :=
   if s.closed then (s, []) else
-  let inHs := s.tlsMode != .none && s.tlsState == .handshake
   match ev with
-  | .writable =>
-    if inHs && handshakeDrivenFirst then (s, [])        -- the handshake branch of onSession runs instead (event `.handshake`)
-    else if s.connectPending && (s.tlsMode == .none || !plainAnnounceRequiresModeNone) then
-      ({ s with connectPending := false, announced := true, wq := [] }, .onConnect :: flush (s.tlsMode != .none && s.tlsState == .open) s.wq)
-    else (s, [])
-  | .handshake rc =>
-    if !inHs then (s, []) else
-    match rc with
-    | some true =>
-      ({ s with tlsState := .open, connectPending := false, announced := true, wq := [] }, .onConnect :: flush true s.wq)
-    | none =>
-      if wantIoKeepsHandshake then (s, [])
-      else ({ s with closed := true }, [.onClose])
-    | some false =>
-      if failureCloses then ({ s with closed := true, wq := [] }, [.onClose])
-      else if openOnlyOnRc1 && connectCbOnlyOnRc1 then (s, [])
-      else ({ s with tlsState := .open, announced := true }, [.onConnect])
+  | .immediate =>
+    if s.connectPending && (s.req == .none || !immediateAnnounceRequiresReqNone) then announce s else (s, [])
+  | .epoll out rc =>
+    if s.inHs && handshakeDrivenFirst then
+      let d := driveHs s rc
+      if !d.2.2 && handshakeReturnsWhenIncomplete then (d.1, d.2.1)      -- `if (!driveHandshake(s)) return;`
+      else if d.1.closed then (d.1, d.2.1)                               -- the session is gone (re-lookup fails)
+      else
+        let w := if out then writePending d.1 else (d.1, [])
+        (w.1, d.2.1 ++ w.2)
+    else
+      let a := if out && s.connectPending && (s.tlsMode == .none || !plainAnnounceRequiresModeNone) then announce s else (s, [])
+      let w := if out then writePending a.1 else (a.1, [])
+      (w.1, a.2 ++ w.2)
   | .appSend bs =>
-    if inHs && sendQueuedDuringHandshake && sendGuardPrecedesIo then ({ s with wq := s.wq ++ [bs] }, [])
-    else if s.tlsMode != .none && s.tlsState == .open && rawSendOnlyWhenNotOpenTls then (s, [.sslWrite bs])
+    if s.inHs && sendQueuedDuringHandshake && sendGuardPrecedesIo then ({ s with wq := s.wq ++ [bs] }, [])
+    else if s.openTls && doSendSslWhenOpenTls then (s, [.sslWrite bs])
     else (s, [.rawWire bs])
 
 def sessRun : Sess → List SEv → List SOut
   | _, [] => []
   | s, e :: es => (sessStep s e).2 ++ sessRun (sessStep s e).1 es
 
-/-- a session as `doConnect` (`outbound`) / `onListener` create it under plan `p` -/
-def Plan.session (outbound : Bool) : Plan → Option Sess
-  | .plain => some { connectPending := outbound }
+/-- a session as `doConnect` (`outbound`, request mode `req`) / `onListener` create it under plan `p` -/
+def Plan.session (outbound : Bool) (req : Mode) : Plan → Option Sess
+  | .plain => some { req := req, connectPending := outbound }
   | .refuse _ => none
-  | .tls ctx _ _ => some { tlsMode := ctx.role, tlsState := .handshake, connectPending := outbound }
+  | .tls ctx _ _ => some { req := req, tlsMode := ctx.role, tlsState := .handshake, connectPending := outbound }
+
+/-! ## `HttpClient` configuration history (`setTlsConfig`, `ensureInitialized`) -/
+
+inductive HOp
+  | setTls (c : HttpTls)
+  | touch                      -- anything that runs `ensureInitialized`: a request, `setDnsServers`, `addDnsServer`, `getDnsServers`
+  deriving DecidableEq, Repr
+
+structure HState where
+  stored : HttpTls := {}                  -- `_tlsConfig`
+  applied : Option HttpTls := none        -- the settings the transport's client context was built from
+  deriving DecidableEq, Repr
+
+/-- (state, `setTlsConfig` threw) -/
+def hStep (s : HState) : HOp → HState × Bool
+  | .setTls c =>
+    if setTlsConfigRejectsChangeAfterInit && s.applied.isSome && s.stored != c then (s, true)
+    else ({ s with stored := c }, false)
+  | .touch => ({ s with applied := some (s.applied.getD s.stored) }, false)
+
+def hRun : HState → List HOp → HState
+  | s, [] => s
+  | s, o :: os => hRun (hStep s o).1 os
 
 end Iora.Tls
